@@ -87,21 +87,30 @@ Fixpoint fit_next (fuel : nat) (prefix : okey) (s : fit) : fnext :=
 
 Definition fit_size (s : fit) : nat := length (f_tree s) + length (f_par s).
 
-(* for it.Next() { emit } ; n bounds the number of items *)
-Fixpoint fit_collect (n : nat) (prefix : okey) (s : fit) : list (key * val) :=
+(* for it.Next() { emit } ; n bounds the number of items.  None = a Next call ran out of fuel or more
+   than n items were produced (explicit out-of-fuel value; proved never to happen for the fuel used) *)
+Fixpoint fit_collect (n : nat) (prefix : okey) (s : fit) : option (list (key * val)) :=
   match n with
-  | O => []
+  | O => None
   | S n' =>
       match fit_next (S (fit_size s)) prefix s with
-      | FItem kv s' => kv :: fit_collect n' prefix s'
-      | _ => []
+      | FItem kv s' => match fit_collect n' prefix s' with
+                       | Some l => Some (kv :: l)
+                       | None => None
+                       end
+      | FEnd => Some []
+      | FOut => None
       end
   end.
 
-(* NewIterator(prefix, start) + full drain; [parent] = what the parent's NewIterator(prefix,start) yields *)
-Definition flu_iterate (o : tree) (parent : list (key * val)) (prefix start : okey) : list (key * val) :=
+Definition flu_iterate_opt (o : tree) (parent : list (key * val)) (prefix start : okey)
+  : option (list (key * val)) :=
   let s0 := {| f_tree := tree_init (ob prefix ++ ob start) o; f_par := parent; f_prev := None |} in
   fit_collect (S (fit_size s0)) prefix s0.
+
+(* NewIterator(prefix, start) + full drain; [parent] = what the parent's NewIterator(prefix,start) yields *)
+Definition flu_iterate (o : tree) (parent : list (key * val)) (prefix start : okey) : list (key * val) :=
+  match flu_iterate_opt o parent prefix start with Some l => l | None => [] end.
 
 (* ---- flush ---- *)
 
